@@ -58,14 +58,19 @@ func withLock(path string, lockType int, fn func() error) error {
 	defer syscall.Close(fd)
 
 	// Fail-fast: non-blocking lock attempt only
+	verifPoint("lock.attempt")
 	if err := syscall.Flock(fd, lockType|syscall.LOCK_NB); err != nil {
 		if errors.Is(err, syscall.EWOULDBLOCK) || errors.Is(err, syscall.EAGAIN) {
+			verifPoint("lock.busy")
 			return ErrLockBusy
 		}
 		return err
 	}
+	verifPoint("lock.held")
 	defer func() {
+		verifPoint("lock.release")
 		_ = syscall.Flock(fd, syscall.LOCK_UN)
+		verifPoint("lock.released")
 	}()
 	return fn()
 }
@@ -81,6 +86,7 @@ func ensureFileExists(path string, mode os.FileMode) error {
 	if !errors.Is(err, os.ErrNotExist) {
 		return err
 	}
+	verifPoint("ensure.create")
 	if err := os.WriteFile(path, []byte{}, mode); err != nil {
 		return fmt.Errorf("cannot create %s: %w", path, err)
 	}
@@ -110,6 +116,9 @@ func newShortID(existing map[string]*Task) (string, error) {
 }
 
 func shortID() (string, error) {
+	if id, ok := verifNextID(); ok {
+		return id, nil
+	}
 	buf := make([]byte, 4)
 	if _, err := rand.Read(buf); err != nil {
 		return "", err
